@@ -1,15 +1,20 @@
 #!/bin/bash
-# tools/seedtest.sh <seed_dir> <ID> [tier] : apply a seeded change to /repo, run the check, undo it straight afterwards
+# tools/seedtest.sh <seed_dir> <ID> [tier] : apply a seeded change, run the check, undo it straight afterwards.
+# With SEED_REPO=<dir> (a scratch worktree of /repo outside /repo and /verif) the change is applied THERE and the check runs
+# with VERIF_REPO=<dir>, so /repo itself is never touched and other work can go on; without it the change is applied to /repo.
 set -u
 S="$(realpath "$1")"; ID="$2"; TIER="${3:-quick}"
+R="${SEED_REPO:-/repo}"
 cd /verif
-git -C /repo diff --quiet || { echo "/repo has uncommitted changes"; exit 3; }
-git -C /repo apply "$S/patch.diff" || { echo "patch does not apply"; exit 3; }
-cp evidence/$ID.json /tmp/.ev_$ID.json 2>/dev/null
-./vcheck "$ID" "$TIER" > /tmp/seedtest_$$.log 2>&1; rc=$?
-git -C /repo checkout -- . 
-cp /tmp/.ev_$ID.json evidence/$ID.json 2>/dev/null
-grep -E "^VIOLATION|^KNOWN|^INCONCLUSIVE|^\[" /tmp/seedtest_$$.log | cut -c1-220 | head -12
-rm -f /tmp/seedtest_$$.log
+git -C "$R" diff --quiet || { echo "$R has uncommitted changes"; exit 3; }
+git -C "$R" apply "$S/patch.diff" || { echo "patch does not apply"; exit 3; }
+trap 'git -C "$R" checkout -- . ; pkill -P $$ 2>/dev/null' EXIT INT TERM
+EV=$(mktemp /tmp/.ev_XXXXXX.json); cp evidence/$ID.json $EV 2>/dev/null
+LOG=$(mktemp /tmp/seedtest_XXXXXX.log)
+VERIF_REPO="$R" ./vcheck "$ID" "$TIER" > $LOG 2>&1; rc=$?
+git -C "$R" checkout -- .
+cp $EV evidence/$ID.json 2>/dev/null; rm -f $EV
+grep -E "^VIOLATION|^KNOWN|^INCONCLUSIVE|^\[" $LOG | cut -c1-220 | head -12
+rm -f $LOG
 echo "seed=$(basename $S) check=$ID tier=$TIER exit=$rc"
 exit $rc
